@@ -496,12 +496,31 @@ class SrcHarness:
                 ctx.assume(tmf(x) != smt.NONE)
         w.log.clear()
         w.events.clear()
+        # the subscriber may dispose its subscription from inside on_next (take(n), first, an explicit dispose()): from then on no user
+        # function of this source runs on its behalf (C03) and the source stops producing (C14)
+        disp_in_next = ctx.choose(2, "the subscriber disposes its subscription from inside on_next") == 1
+        marker = {}
+
+        def after_down(it_):
+            if "at" not in marker:
+                marker["at"] = len(w.events)
+                it.call(it.get_attr(res, "dispose"), [], {})
+        w.after_down = after_down if disp_in_next else None
         try:
             it.call(A, [self.sched, None], {})
         except PyExc as e:
             self.rec(ctx, uid + "/tick/no-exception-escapes-into-the-scheduler", False, detail=f"{e.value!r} {getattr(e.value, 'fields', '')}")
             return
+        finally:
+            w.after_down = None
         self.rec(ctx, uid + "/tick/no-exception-escapes-into-the-scheduler", True)
+        if disp_in_next:
+            if "at" not in marker:
+                raise PathEnd()  # nothing was emitted in this tick
+            late = [e[1] for e in w.events[marker["at"]:] if e[0] in ("cb", "cb_raised")]
+            self.rec(ctx, uid + "/tick/disposed-inside-on_next/no-user-function-runs-afterwards", not late,
+                     detail=f"after the subscriber disposed its subscription (inside on_next) the tick still called: {late}")
+            return
         cbs = [e for e in w.events if e[0] in ("cb", "cb_raised")]
         raised = [e for e in cbs if e[0] == "cb_raised"]
         calls = [e for e in cbs if e[0] == "cb"]
